@@ -731,3 +731,20 @@ PROPS["C05"]["claim"] += (" HISTORY FORM about the translated code (Proofs/EndTo
 PROPS["C11"]["proofs"] = PROPS["C11"]["proofs"] + ["Bmc.Proofs.EndToEnd.SessionlessHistory"]
 PROPS["C11"]["claim"] += (" SESSION-LESS HISTORY (Proofs/EndToEnd/SessionlessHistory.lean): generated_sessionless_history_results — on a session-less connection threaded through any history by SendCommand AS TRANSLATED, "
                           "every completion code returned with a nil error comes from a reply delivered during that call that decodes to a message for that call's command.")
+
+# WHAT A FAILING INPUT OF THE PROPERTY LOOKS LIKE.  Scenarios are shared between properties and their executors attach the verdicts of all
+# the properties they serve; `check` counts a verdict (or a model/implementation difference on a class-P operation) as an input on which
+# THIS property fails only if it is about this property — anything else is a break of the correspondence (reported, "no-failing-input-found"
+# unless an input of the right kind is found as well).  `relevant`: regex over "<first word of the implementation's outcome> <verdict>";
+# `irrelevant`: per scenario, verdicts that belong to another property.
+PROPS["C05"]["relevant"] = r"\b(panic|overread|hang)\b|did not return|had not returned|after its deadline|beyond the end|does not terminate"
+PROPS["C09"]["relevant"] = r"sequence number|session ID|not zero outside a session|implementation differs|\b(panic|hang)\b"
+_about_results = r"result is |datagrams transmitted"
+_about_datagrams = r"datagram \d+ (is not|does not|reuses|carries|:)|datagrams \d+ and \d+|datagrams transmitted"
+_about_the_walk = r"modified during the final walk|after a failed retrieval"
+PROPS["C03"]["irrelevant"] = {"send": _about_results, "udp": _about_results}
+PROPS["C06"]["irrelevant"] = {"send": _about_results + r"|sequence number|IV draw|initialisation vector"}
+PROPS["C04"]["irrelevant"] = {"send": _about_datagrams, "udp": _about_datagrams}
+PROPS["C11"]["irrelevant"] = {"send": _about_datagrams, "slsend": _about_datagrams, "udp": _about_datagrams}
+PROPS["C07"]["irrelevant"] = {"sdr": _about_the_walk}
+PROPS["C17"]["irrelevant"] = {"sdr": _about_the_walk}
